@@ -163,16 +163,14 @@ theorem aggEnd_spec (e a : Nat) (h : aggEnd e = some a) :
 def Mono (ts : Nat → Nat) : Prop := ∀ i j, i ≤ j → ts i ≤ ts j
 
 theorem findOldestLoop_spec (ts : Nat → Nat) (cutoff : Nat) (hm : Mono ts) :
-    ∀ fuel low high, low ≤ high → high - low < fuel →
-      (∀ i, i < low → ts i < cutoff) → (∀ i, high ≤ i → cutoff ≤ ts i ∨ True) →
-      (∀ i, low ≤ i → i < high → True) →
+    ∀ fuel low high, low ≤ high → high - low < fuel → (∀ i, i < low → ts i < cutoff) →
       let r := findOldestLoop ts cutoff fuel low high
       low ≤ r ∧ r ≤ high ∧ (∀ i, i < r → ts i < cutoff) ∧ (r < high → cutoff ≤ ts r) := by
   intro fuel
   induction fuel with
   | zero => intro low high _ h; omega
   | succ fuel ih =>
-    intro low high hle hf hlow _ _
+    intro low high hle hf hlow
     simp only [findOldestLoop]
     by_cases hlt : low < high
     · simp only [hlt, if_true]
@@ -185,13 +183,11 @@ theorem findOldestLoop_spec (ts : Nat → Nat) (cutoff : Nat) (hm : Mono ts) :
             by_cases h1 : i < low
             · exact hlow i h1
             · have := hm i (low + (high - low) / 2) (by omega); omega)
-          (by intro _ _; exact Or.inr trivial) (by intro _ _ _; trivial)
         simp only at this
         obtain ⟨a, b, c, d⟩ := this
         exact ⟨by omega, b, c, d⟩
       · simp only [hts, if_false]
         have := ih low (low + (high - low) / 2) (by omega) (by omega) hlow
-          (by intro _ _; exact Or.inr trivial) (by intro _ _ _; trivial)
         simp only at this
         obtain ⟨a, b, c, d⟩ := this
         refine ⟨a, by omega, c, ?_⟩
@@ -216,7 +212,7 @@ theorem findOldest_spec (ts : Nat → Nat) (lower upper cutoff : Nat) (hm : Mono
     intro i hi; exact hbelow i (by omega)
   · simp only [h, if_false]
     have := findOldestLoop_spec ts cutoff hm (upper + 1 - lower + 1) lower (upper + 1) (by omega) (by omega)
-      hbelow (by intro _ _; exact Or.inr trivial) (by intro _ _ _; trivial)
+      hbelow
     simp only at this
     obtain ⟨a, b, c, d⟩ := this
     by_cases h2 : findOldestLoop ts cutoff (upper + 1 - lower + 1) lower (upper + 1) > upper
